@@ -110,8 +110,8 @@ def main():
         "checks": checks,
         "not_applicable": [{"property_id": p, "reason": "check under construction in this round; not claimed yet"} for p in PROPS if p not in CHECKS],
         "notes": "Exit codes: 0 held / 1 VIOLATION line / 2 tool or harness trouble. Known findings: /verif/known_findings.json (open: F-C04-2 under C04 and C08, F-C06-1, F-C11-1). "
-                 "Hooks: three add-only commits in /repo guarded by cfg(mpd_client_verif); the only edited existing line is the check-cfg list of [lints.rust] in mpd_protocol/Cargo.toml "
-                 "(so that a normal build stays free of unexpected-cfg warnings); property verdicts need no hooks, they only feed the LoopTrace binding (drift = NOTE, never a verdict). "
+                 "Hooks: four add-only commits in /repo guarded by cfg(mpd_client_verif); the only edited existing line is the check-cfg list of [lints.rust] in mpd_protocol/Cargo.toml "
+                 "(so that a normal build stays free of unexpected-cfg warnings); property verdicts need no hooks, they only feed the hook-level bindings LoopTrace.tla (client loop) and ReceiveTrace.tla (receive loops' buffer bookkeeping); drift = NOTE, never a verdict. "
                  "Ten fix: commits repaired genuine defects (listed as fixed: in known_findings.json). DESIGN.md section 12 is the build log.",
     }
     json.dump(m, open("/verif/MANIFEST.json", "w"), indent=1)
